@@ -539,6 +539,8 @@ class UDPTunnel(_Tunnel):
         """
         raw_cemi = cemi.to_knx()
         async with self._send_ready():
+            # the connection (socket) the frame was last sent over
+            sent_over = self.transport.transport
             try:
                 try:
                     await self._tunnelling_request(raw_cemi)
@@ -547,6 +549,7 @@ class UDPTunnel(_Tunnel):
                 else:
                     return
 
+                sent_over = self.transport.transport
                 try:
                     await self._tunnelling_request(raw_cemi)
                 except TunnellingAckError as err:
@@ -569,6 +572,7 @@ class UDPTunnel(_Tunnel):
                         True,
                     ) from None
 
+                sent_over = self.transport.transport
                 try:
                     await self._tunnelling_request(raw_cemi)
                 except TunnellingAckError as err:
@@ -578,7 +582,10 @@ class UDPTunnel(_Tunnel):
                     ) from None
 
             finally:
-                self._increase_sequence_number()
+                # a tunnel re-established while waiting for the ACK counts from 0 again -
+                # the frame never used a sequence counter of that connection
+                if self.transport.transport is sent_over:
+                    self._increase_sequence_number()
 
     async def _send_tunnelling_request(self, frame: TunnellingRequest) -> None:
         """Send Telegram to tunnelling device."""
